@@ -611,8 +611,9 @@ def part_from_matchfile(
             technical=[],
         )
 
+        # the staff number is everything after "staff" (staff12 is staff 12)
         staff_nr = next(
-            (a[-1] for a in note.ScoreAttributesList if a.startswith("staff")), None
+            (a[5:] for a in note.ScoreAttributesList if a.startswith("staff")), None
         )
         try:
             note_attributes["staff"] = int(staff_nr)
